@@ -170,6 +170,8 @@ impl FunctionExpression for ParseKlogFn {
 // the month to guess the year based on the current month
 fn resolve_year(month: Option<&str>) -> i32 {
     let now = Utc::now();
+    #[cfg(feature = "verif-hooks")]
+    let now = crate::verif::now_override().unwrap_or(now);
     match (month, now.month()) {
         (Some("12"), 1) => now.year() - 1,
         (_, _) => now.year(),
